@@ -98,6 +98,7 @@ var flowRules = map[string]flowFn{
 	"error-yields-nil":  func(f *yyflow.Lang, sh map[string]*yyflow.Shape) *report.RuleResult { return f.ErrorYieldsNil() },
 	"no-carrier-escape": func(f *yyflow.Lang, sh map[string]*yyflow.Shape) *report.RuleResult { return f.NoCarrierEscape(sh) },
 	"kind-of-operator":  func(f *yyflow.Lang, sh map[string]*yyflow.Shape) *report.RuleResult { return f.KindOfOperator() },
+	"grammar-ignores-trivia": func(f *yyflow.Lang, sh map[string]*yyflow.Shape) *report.RuleResult { return f.IgnoresTrivia() },
 	"report-positions":  func(f *yyflow.Lang, sh map[string]*yyflow.Shape) *report.RuleResult { return f.ReportPositions(sh) },
 }
 
@@ -184,12 +185,11 @@ func init() {
 	delete(notApplicable, "C02")
 	properties["C02"] = &Property{
 		Level:     "other",
-		LevelText: "Round-trip equality is a statement about run-time values; what is decided is the chain of structural conditions each of which is necessary for it, for every production of both grammars and every node kind: (1) the compiled parser is the grammar's (tables-sync); (2) every grammar action, interpreted symbolically on every path, places every right-hand-side token, node and list exactly once in the tree it returns (linear) — a dropped token is lost text, a token placed twice is printed twice — except on paths that deliver a semantic error; (3) inside every node built by an action the declaration order of the fields is the source order of what is put into them (order), and parser-private carrier objects never become children of a node (no-carrier-escape); (4) the printer emits every slot of every kind exactly once in declaration order through helpers that write free-floating tokens and then the token (print-slots, print-helpers, shared with C15); (5) the places where the printer writes bytes that are not a token's own are enumerated and must equal the reviewed table (print-inserts). Not decided: the scanner's half of the chain (every source byte reaches exactly one token or free-floating token: rules of C04 when claimed) and value-level interactions inside printer.write.",
+		LevelText: "Round-trip equality is a statement about run-time values; what is decided is the chain of structural conditions each of which is necessary for it, for every production of both grammars and every node kind: (1) the compiled parser is the grammar's (tables-sync); (2) every grammar action, interpreted symbolically on every path, places every right-hand-side token, node and list exactly once in the tree it returns (linear) — a dropped token is lost text, a token placed twice is printed twice — except on paths that deliver a semantic error; (3) inside every node built by an action the declaration order of the fields is the source order of what is put into them (order), and parser-private carrier objects never become children of a node (no-carrier-escape); (4) the printer emits every slot of every kind exactly once in declaration order through helpers that write free-floating tokens and then the token (print-slots, print-helpers, shared with C15); (5) the places where the printer writes bytes that are not a token's own are enumerated and must equal the reviewed table (print-inserts). (6) the scanner's half: on the reconstructed transition system of the generated scanner every consumed byte range is returned as a token, recorded as free-floating or reported (no-drop), value and position of free-floating tokens come from the same bytes (ff-span), scanning resumes exactly at the end of the previous token (resume-at-te), and transition conditions do not move the cursor (pred-pure). Not decided: value-level interactions inside printer.write and the end-of-input token.",
 		LevelNote: "Three insertion sites of the printer are genuinely reachable from parsed trees and are listed as known findings.",
 		Technique: "static analysis: abstract interpretation of grammar actions (linearity / ordering of token placement), table equivalence with the regenerated grammar, typed-AST slot analysis of the printer, enumeration of byte-insertion sites",
 		Engine:    "yyflow",
-		Explanation: "tables-sync, linear, order, no-carrier-escape on both grammars; pool-typestate (tokens are distinct objects); print-slots, print-helpers, print-inserts on pkg/visitor/printer.",
-		Assumptions: []string{"the scanner hands every source byte to exactly one token or free-floating token (C04)"},
+		Explanation: "tables-sync, linear, order, no-carrier-escape on both grammars; pool-typestate (tokens are distinct objects); pos-pairing, ff-span, resume-at-te, no-drop, pred-pure on the scanner; print-slots, print-helpers, print-inserts on pkg/visitor/printer.",
 		TrustedBase: yyTrusted,
 		Floors: []report.Floor{
 			{Rule: "tables-sync", What: "tables", Min: 22},
@@ -204,6 +204,8 @@ func init() {
 			c.grammarRule("tables-sync", syncRule)
 			c.flows_("linear", "order", "no-carrier-escape")
 			c.poolRule()
+			c.scanRun("token-rules")
+			c.ssaScan("pred-pure")
 			c.visitorRule("print-slots", visitors.PrintSlots)
 			if p, tb, ok := c.RepoProgram(false); ok {
 				c.Add(visitors.PrintHelpers(p, tb))
@@ -274,7 +276,7 @@ func init() {
 	{
 		p := properties["C03"]
 		run := p.Run
-		p.LevelText = strings.Replace(p.LevelText, "and the node built by each production (decided by the yyflow rules when claimed).", "and the full tree for arbitrary derivations. Decided in addition, by abstract interpretation of every action: productions of the form `operand OP operand`, `OP operand`, `operand OP` build the node kind PHP's syntax gives that operator with the operands in the roles their position dictates (kind-of-operator, an oracle table of 90 operators), leaf nodes carry the text of their own token (leaf-value), and field order is source order (order).", 1)
+		p.LevelText = strings.Replace(p.LevelText, "and the node built by each production (decided by the yyflow rules when claimed).", "and the full tree for arbitrary derivations. Decided in addition, by abstract interpretation of every action: productions of the form `operand OP operand`, `OP operand`, `operand OP` build the node kind PHP's syntax gives that operator with the operands in the roles their position dictates (kind-of-operator, an oracle table of 90 operators), leaf nodes carry the text of their own token (leaf-value), and field order is source order (order); on the reconstructed scanner automaton every state of the php machine treats upper- and lower-case letters alike (case-fold: keywords and casts are case-insensitive), and the only version-dependent lexing is the flexible-heredoc test, which switches exactly at 7.3 (version-flow).", 1)
 		p.Technique += "; abstract interpretation of grammar actions against an operator→node-kind oracle"
 		p.TrustedBase = yyTrusted
 		p.Floors = append(p.Floors, report.Floor{Rule: "kind-of-operator", What: "operator-productions", Min: 160}, report.Floor{Rule: "leaf-value", What: "leaves", Min: 190})
@@ -283,6 +285,7 @@ func init() {
 			defer c.cleanup()
 			c.flowRule("kind-of-operator", flowRules["kind-of-operator"])
 			c.flows_("leaf-value", "order")
+			c.scanRun("case-fold")
 			c.Fixture("mini", "version-flow", false, func(p *load.Program, tb *kinds.Table) *report.RuleResult { return small.VersionFlow(p) })
 			if p, _, ok := c.RepoProgram(false); ok {
 				c.Add(small.VersionFlow(p))
